@@ -25,33 +25,45 @@ PROGS = [
 ]
 RULE = ('fault schedules: for each target function, each stub variant (rescore; object gal/qso/star x method pca/hmf x '
         'dump file present x flux plots; missing file / missing fibre / unknown method) and each initial state of the touched '
-        'variables (set/unset, RUN2D and RUN1D independently; PHOTO_RESOLVE set/unset): no fault, an exception raised at the '
-        'k-th LINE event of the target frames for every k of the fault-free run (lines where the IR has a fault point), and at '
-        'the k-th collaborator call for every k; exception classes InjectedFault plus those named by the except clauses. '
+        'variables (set / unset / set-but-empty, RUN2D and RUN1D independently; PHOTO_RESOLVE set/unset): no fault, an '
+        'exception raised at the k-th LINE event of the monitored frames (target + everything inlined into it) for every k '
+        'that maps to a fault point of the IR outside restore code, and at the k-th collaborator call for every k; exception '
+        'classes InjectedFault plus those named by the except clauses; two-call sequences (first call failing at a sampled '
+        'point, variables changed in between). The module is re-executed before every plan / sequence. '
         'Non-trivial = the call reaches the first environment write or fails; distinct = distinct (function, variant, initial '
-        'state, injection) payloads')
-TRUSTED = ['AST translator harness/xlate/c20_envir.py (about 500 lines of Python): which constructs are environment effects, '
-           'which may raise; validated on every run by comparing the IR semantics with the real function under every injected fault',
+        'state, injection | sequence) payloads')
+TRUSTED = ['AST translator harness/xlate/c20_envir.py (about 900 lines of Python): which constructs are environment effects, '
+           'which may raise, how same-module helpers / context managers are inlined and their parameters and return values bound; '
+           'validated on every run by comparing the IR semantics with the real function under every injected fault and by 32 '
+           'snippets with known verdict',
            'IR semantics claim: code outside the translated functions (and their inlined callees) does not write os.environ; '
            'checked syntactically by a census of os.environ writers in the package',
            'sys.monitoring LINE-event injection and unittest.mock stubs stand for failures of collaborators']
-ASSUMPTIONS = ['asynchronous exceptions (KeyboardInterrupt, MemoryError between two bytecodes of a restore statement) are outside the statement',
+ASSUMPTIONS = ['asynchronous exceptions (KeyboardInterrupt, MemoryError between two bytecodes of a restore statement, of an '
+               '__exit__ that only restores, of a helper that only reads/writes os.environ) are outside the statement, and so is '
+               'a failure of the restoration code itself (evaluating the saved value it assigns back)',
                'os.environ is only reached as os.environ / from os import environ; no aliasing of the mapping, no os.putenv',
-               'names (os, None, builtins) are not rebound; reading a local name or a constant cannot raise',
+               'names (os, None, builtins) are not rebound; reading a local name or a constant, an identity test and the truth '
+               'value of a saved string/None cannot raise',
                'other threads do not modify the environment concurrently']
 LEVEL_TEXT = ('Machine-checked Lean 4 theorem restores_sound: every program of the effect IR accepted by the checker `restores` '
               'ends with the environment it started with - for all fault schedules, branch choices, loop counts, opaque values, '
               'initial environments and stores, on normal return, return inside try and every exceptional path (induction on '
-              'programs, abstract-interpretation invariant); other_vars_untouched / restores_only_touches: nothing outside the '
-              'declared variables is written. On every run the IR of window_score and of template_input (template_metadata inlined) '
-              'is regenerated from the Python AST and `restores <prog> <vars> = true` is re-proved by `decide`. The real functions '
-              'are run under exhaustive line-level and collaborator-level fault injection for every initial state; os.environ '
-              'before == after is checked directly, and the IR semantics is run under the same schedule and compared.')
+              'programs; abstract interpreter with separate results for normal / exceptional / return exits); '
+              'other_vars_untouched / restores_only_touches: nothing outside the declared variables is written. On every run '
+              'the IR of window_score and of template_input is regenerated from the Python AST - same-module helpers and context '
+              'managers (classes with __enter__/__exit__, @contextmanager generators) that touch os.environ are inlined with their '
+              'literal arguments and return values bound - and `restores <prog> <vars> = true` is re-proved by `decide`. The real '
+              'functions are run under exhaustive line-level and collaborator-level fault injection for every initial state '
+              '(set / unset / empty) and in two-call sequences; os.environ before == after is checked directly, and the IR '
+              'semantics is run under the same schedule and compared.')
 LEVEL_NOTE = ('Trusted / not proved: the translator (Python) and the reading of Python semantics built into it (what may raise, '
-              'what writes the environment) - sampled by the fault-injection correspondence, not verified; callees outside the '
-              'module are assumed not to write os.environ (syntactic census of the package only); asynchronous exceptions and '
-              'threads are out of scope; break/continue, generators, nested functions touching the environment, computed variable '
-              'names are refused by the translator (failing obligation), not handled.')
+              'what writes the environment, inlining and binding rules) - sampled by the fault-injection correspondence and the '
+              'snippet self-test, not verified; callees outside the module are assumed not to write os.environ (syntactic census of '
+              'the package only); asynchronous exceptions, failures of the restore statements themselves and threads are out of '
+              'scope (exceptions are injected only at fault points of the IR outside restore code); break/continue, other '
+              'generators, return inside a generator-guarded block, escaping context-manager instances, nested functions touching '
+              'the environment, computed variable names are refused by the translator (failing obligation), not handled.')
 
 
 # ---------------------------------------------------------------- translation + obligations
@@ -78,15 +90,15 @@ def census(ctx, progs):
         covered.add((p['file'][len('pydl/'):], p['func']))
         if p['tr']:
             for f in p['tr'].inlined:
-                covered.add((p['file'][len('pydl/'):], f))
+                covered.add((p['file'][len('pydl/'):], f.split('.')[-1]))
     others = [w for w in writers if w not in covered]
     bad = []
     for p in progs:
         if not p['tr'] or p['func'] not in p['tr'].funcs:
             continue
         names = set()
-        for f in [p['func']] + sorted(p['tr'].inlined):
-            names |= X.called_names(p['tr'].funcs[f])
+        for node in nodes_of(p):
+            names |= X.called_names(node)
         for w in others:
             if w[1] in names:
                 bad.append('%s calls %s (%s), which writes os.environ and is not translated' % (p['func'], w[1], w[0]))
@@ -94,6 +106,22 @@ def census(ctx, progs):
     if others:
         ctx.notes.append('other os.environ writers in the package, not called from the targets: %s' % others)
     ctx.oblige('census: callees of the translated functions do not write os.environ', not bad, 'gen-census', '\n'.join(bad))
+
+
+def nodes_of(p):
+    """AST nodes of the target function and of the functions / methods inlined into it"""
+    tr = p['tr']
+    out = []
+    if not tr:
+        return out
+    for q in [p['func']] + sorted(tr.inlined):
+        if '.' in q:
+            c, m = q.split('.', 1)
+            cls = tr.classes.get(c)
+            out += [x for x in (cls.body if cls else []) if getattr(x, 'name', None) == m]
+        elif q in tr.funcs:
+            out.append(tr.funcs[q])
+    return out
 
 
 def generate(ctx, progs):
@@ -173,8 +201,9 @@ def model_check(ctx, progs):
             ctx.oblige('executable checker agrees with decide on %s' % p['name'], False, 'gen-tie',
                        'driver says %s, kernel says %s' % (o['restores'], p.get('restores')))
         if not o['restores']:
-            ctx.notes.append('%s: checker rejects; analysis at normal exit %s, at abrupt exit %s, writes %s' % (
-                p['name'], json.dumps(o['normal']), json.dumps(o['abrupt']), sorted(set(o['writes']))))
+            ctx.notes.append('%s: checker rejects; analysis at normal exit %s, when an exception leaves %s, when a return '
+                             'leaves %s, writes %s' % (p['name'], json.dumps(o['normal']), json.dumps(o['raised']),
+                                                      json.dumps(o['returned']), sorted(set(o['writes']))))
         ctx.count('ir:%s:nodes' % p['name'], sum(1 for _ in X.walk_ir(p['ir'])))
         ctx.count('ir:%s:fault-points' % p['name'], sum(1 for n in X.walk_ir(p['ir']) if n[0] == 'fault'))
 
@@ -205,8 +234,8 @@ class Index:
         m = self.meta[i]
         if 'round' not in m:
             return 0, len(ev)
-        fbl, serial = m['round']
-        pos = [k for k, e in enumerate(ev) if e == (m['func'], fbl)]
+        rfunc, fbl, serial = m['round']
+        pos = [k for k, e in enumerate(ev) if e == (rfunc, fbl)]
         if serial > len(pos):
             return 0, 0
         return pos[serial - 1], (pos[serial] if serial < len(pos) else len(ev))
@@ -271,9 +300,9 @@ def window_plan(ctx):
     rng = ctx.rng
     plans = []
     for rescore in (False, True):
-        for calib in (True, False):
+        for calib in (True, False, ''):
             for resolve in (True, False):
-                init = {'PHOTO_CALIB': rand_value(rng, 'calib') if calib else None,
+                init = {'PHOTO_CALIB': rand_value(rng, 'calib') if calib is True else (None if calib is False else ''),
                         'PHOTO_RESOLVE': rand_value(rng, 'resolve') if resolve else None}
                 plans.append(({'rescore': rescore}, init))
     return plans
@@ -292,6 +321,11 @@ def template_plan(ctx):
             for r1 in (True, False):
                 init = {'RUN2D': rand_value(rng, 'run2d') if r2 else None, 'RUN1D': rand_value(rng, 'run1d') if r1 else None}
                 plans.append((v, init))
+    # a variable that is set but empty is a state of its own
+    for v in (variants[0], variants[2]):
+        plans.append((v, {'RUN2D': '', 'RUN1D': rand_value(rng, 'run1d')}))
+        plans.append((v, {'RUN2D': rand_value(rng, 'run2d'), 'RUN1D': ''}))
+        plans.append((v, {'RUN2D': '', 'RUN1D': None}))
     return plans
 
 
@@ -299,13 +333,12 @@ def handler_classes(p):
     """exception classes named by except clauses of the translated source (to be injected as well)"""
     import ast
     names = set()
-    if p['tr']:
-        for f in [p['func']] + sorted(p['tr'].inlined):
-            for n in ast.walk(p['tr'].funcs[f]):
-                if isinstance(n, ast.ExceptHandler) and n.type is not None:
-                    for m in ast.walk(n.type):
-                        if isinstance(m, ast.Name):
-                            names.add(m.id)
+    for node in nodes_of(p):
+        for n in ast.walk(node):
+            if isinstance(n, ast.ExceptHandler) and n.type is not None:
+                for m in ast.walk(n.type):
+                    if isinstance(m, ast.Name):
+                        names.add(m.id)
     from harness.props.c20_real import EXC
     return sorted(n for n in names if n in EXC)
 
@@ -319,9 +352,11 @@ class Stream:
         self.pending = []          # (case, real summary, env list, oracle)
         self.touched = p['vars']
 
-    def one(self, variant, init, inject):
+    def one(self, variant, init, inject, expect=None):
         ctx, R, p = self.ctx, self.R, self.p
         case = {'func': p['func'], 'variant': variant, 'init': init, 'inject': inject}
+        if getattr(self, 'history', None):
+            case = {'func': p['func'], 'seq': self.history + [case]}
         res, run = R.run_case(p['func'], variant, init, inject, ctx.tmpdir())
         nontrivial = res['outcome'] != 'ok' or res['n_events'] > 3
         ctx.seen(case, nontrivial)
@@ -334,6 +369,8 @@ class Stream:
             outside = [n for n in names if n not in self.touched]
             sig = '%s:env-not-restored:%s' % (p['func'], '+'.join(names)) if not outside else \
                 '%s:other-variable-touched:%s' % (p['func'], '+'.join(outside))
+            if 'seq' in case:
+                sig += ':after-earlier-call'
             where = run.origins[-1] if run.origins else None
             ctx.violate(sig, 'os.environ after the call differs from before: %s; outcome %s; last exception raised at %s' % (
                 res['diff'], res['outcome'], where), case)
@@ -341,7 +378,14 @@ class Stream:
         env = [[v, run.before.get(v)] for v in self.idx.vars]
         real = {'outcome': 'raised' if res['outcome'] != 'ok' else 'ok',
                 'env': [[v, status(run.before.get(v), run.after.get(v))] for v in self.idx.vars]}
-        self.pending.append((case, real, env, self.idx.oracle(run)))
+        inj = [o for o in run.origins if o.get('injected')]
+        if expect is not None and inj and (inj[0]['func'], inj[0]['line']) != tuple(expect):
+            # the k-th line event is not the line it was in the fault-free run (the control flow depends on
+            # earlier calls): the injection is still a legitimate run for the oracle above, but it is not
+            # at a fault point chosen from the IR, so the model is not compared
+            ctx.count('%s:injection-drifted(model not compared)' % p['func'])
+        else:
+            self.pending.append((case, real, env, self.idx.oracle(run)))
         return res, run
 
     def flush(self):
@@ -368,19 +412,23 @@ class Stream:
         ctx = self.ctx
         res0, run0 = self.one(variant, init, None)
         points = []
-        skipped = 0
+        skipped = restore = 0
         for k, (func, line) in enumerate(run0.events):
-            if self.idx.fault_for(run0.events, {'func': func, 'line': line, 'at': k}) is not None:
-                points.append({'mode': 'line', 'k': k})
+            f = self.idx.fault_for(run0.events, {'func': func, 'line': line, 'at': k})
+            if f is None:
+                skipped += 1                      # nothing on this line can raise (pure environment idiom, constant, ...)
+            elif self.idx.meta[f].get('restore'):
+                restore += 1                      # the fault point is part of a restore statement / pure-env helper
             else:
-                skipped += 1
+                points.append({'mode': 'line', 'k': k, 'at': [func, line]})
         ctx.count('%s:line-events-without-fault-point(not injected)' % self.p['func'], skipped)
+        ctx.count('%s:line-events-inside-restore-code(not injected)' % self.p['func'], restore)
         points += [{'mode': 'call', 'k': k} for k in range(len(run0.calls))]
         if sample is not None and len(points) > sample:
             points = ctx.rng.sample(points, sample)
         for pt in points:
             for c in classes:
-                self.one(variant, init, dict(pt, exc=c))
+                self.one(variant, init, dict({k: v for k, v in pt.items() if k != 'at'}, exc=c), expect=pt.get('at'))
         return len(points)
 
 
@@ -416,8 +464,10 @@ def _plan_worker(args):
     """one plan = (program, stub variant, initial state): fault-free run + all its injections"""
     pi, n, variant, init, classes, sample, seed = args
     from harness.props import c20_real as R
-    R.MON.start(R.window_targets() + R.template_targets())
     p = _W['progs'][pi]
+    # every plan starts from freshly executed module-level state, so that a reported single call does not
+    # depend on the calls of earlier plans (sequences of calls are a stream of their own)
+    R.MON.start(R.codes_for(p['func'], p['tr'].inlined if p['tr'] else (), reload=True))
     mc = MiniCtx(_W['tier'], seed, os.path.join(_W['tmp'], 'plan-%d-%d' % (pi, n)))
     st = Stream(mc, p)
     try:
@@ -437,7 +487,7 @@ def injections(ctx, progs):
         hc = handler_classes(p)
         plans = window_plan(ctx) if p['func'] == 'window_score' else template_plan(ctx)
         for n, (variant, init) in enumerate(plans):
-            nset = sum(v is not None for v in init.values())
+            nset = sum(bool(v) for v in init.values())
             if p['func'] == 'window_score':
                 classes, sample = ['InjectedFault'] + hc, None
             elif thorough:
@@ -470,6 +520,56 @@ def injections(ctx, progs):
     ctx.count('injection:seconds', round(time.time() - t0, 1))
 
 
+def sequences(ctx, progs):
+    """two calls in one process: the first fails somewhere (or not), the touched variables are then changed
+    by the caller, the second call must restore what IT found.  The module is re-executed before each
+    sequence, so a sequence is a self-contained failing input."""
+    from harness.props import c20_real as R
+    rng = ctx.rng
+    try:
+        for p in progs:
+            inl = p['tr'].inlined if p['tr'] else ()
+            names = p['vars']
+            variant = {'rescore': False} if p['func'] == 'window_score' else {'object': 'gal', 'method': 'pca'}
+            extra = {'PHOTO_RESOLVE': rand_value(rng, 'resolve')} if p['func'] == 'window_score' else {}
+
+            def state(kind):
+                return dict({v: (rand_value(rng, v) if kind == 'set' else None) for v in names}, **extra)
+            R.MON.start(R.codes_for(p['func'], inl, reload=True))
+            st = Stream(ctx, p)
+            res0, run0 = st.one(variant, state('set'), None)
+            points = [None]
+            for k, (func, line) in enumerate(run0.events):
+                f = st.idx.fault_for(run0.events, {'func': func, 'line': line, 'at': k})
+                if f is not None and not st.idx.meta[f].get('restore'):
+                    points.append({'mode': 'line', 'k': k, 'exc': 'InjectedFault'})
+            points += [{'mode': 'call', 'k': k, 'exc': 'InjectedFault'} for k in range(len(run0.calls))]
+            budget = ctx.n(10, 60) if p['func'] == 'window_score' else ctx.n(5, 24)
+            if len(points) > budget:
+                points = [None] + rng.sample(points[1:], budget - 1)
+            for pt in points:
+                for second in ('set', 'unset'):
+                    seqn = [(variant, state('set'), pt), (variant, state(second), None)]
+                    run_sequence(ctx, st, p, seqn)
+            st.flush()
+    finally:
+        R.MON.stop()
+
+
+def run_sequence(ctx, st, p, seqn):
+    from harness.props import c20_real as R
+    R.MON.start(R.codes_for(p['func'], p['tr'].inlined if p['tr'] else (), reload=True))
+    cases = [{'func': p['func'], 'variant': v, 'init': i, 'inject': j} for v, i, j in seqn]
+    for k, (v, i, j) in enumerate(seqn):
+        st.history = cases[:k]
+        try:
+            res, _ = st.one(v, i, j)
+        finally:
+            st.history = None
+        ctx.count('%s:sequence-call-%d:%s' % (p['func'], k + 1, res['outcome'].split(':')[0]))
+    return res
+
+
 def run(ctx):
     progs = translate_all(ctx)
     census(ctx, progs)
@@ -483,17 +583,22 @@ def run(ctx):
     from harness.props import c20_selftest
     c20_selftest.run(ctx, core, X)
     injections(ctx, progs)
+    sequences(ctx, progs)
 
 
 def replay(ctx, case):
-    """re-run exactly one recorded case on the real function"""
+    """re-run exactly one recorded case (a single call, or a sequence of calls) on the real function,
+    starting from freshly executed module state"""
     from harness.props import c20_real as R
     progs = translate_all(ctx)
     p = [q for q in progs if q['func'] == case['func']][0]
-    R.MON.start(R.window_targets() + R.template_targets())
     try:
         st = Stream(ctx, p)
-        res, run_ = st.one(case['variant'], case['init'], case.get('inject'))
+        if 'seq' in case:
+            res = run_sequence(ctx, st, p, [(c['variant'], c['init'], c.get('inject')) for c in case['seq']])
+        else:
+            R.MON.start(R.codes_for(p['func'], p['tr'].inlined if p['tr'] else (), reload=True))
+            res, run_ = st.one(case['variant'], case['init'], case.get('inject'))
         st.flush()
         print('replay: outcome=%s environment difference=%s' % (res['outcome'], res['diff']))
     finally:
